@@ -332,7 +332,10 @@ def Seg.copySlot (seg : Seg) (i rf : Nat) : Seg :=
   let sr := seg.get rf
   let seg := seg.upd i fun si => si.copyFrom sr
   match sr.parent with
-  | some p => (child seg p i).2
+  | some p =>
+    -- `if (is->attachedTo() && !is->attachedTo()->child(is)) is->attachTo(NULL);`
+    let r := child seg p i
+    if r.1 then r.2 else r.2.upd i fun sl => sl.setParent none
   | none => seg
 
 /-- `is->markCopied(false); is->markDeleted(false);` -/
